@@ -83,6 +83,11 @@ def gen_cases(tier, seed):
         rng = intuniv.rng_for(seed, "C08", i)
         i += 1
         case = gen.rand_search_case(rng, max_alpha=2 if rng.random() < 0.8 else 3)
+        if str(case["pack"]["ver"]).startswith("searched"):
+            # sampling a class verified that way runs a whole search (with its own random
+            # choices, cached afterwards) inside one draw: the decision tree is not the same from
+            # one enumeration pass to the next, so the exact-distribution oracle does not apply
+            case["pack"]["ver"] = "prefix" + case["pack"]["ver"][8:]
         if intuniv.rng_for(seed, "C08/deadchild", i).random() < 0.12:
             # unions in which an earlier non-atom child does not carry a statistic that later
             # children do: after one letter only that letter may follow, the statistic counts
